@@ -149,6 +149,12 @@ TermsText(terms, style) ==
     [] style = 5 -> \* free codes; every terminal declared again without a code, in reverse order ("you can declare terminal several times")
                     KW_TERM \o sp \o Join([i \in 1..Len(terms) |-> Ident(terms[i])], sp) \o <<59, NL>>
                     \o KW_TERM \o sp \o Join([i \in 1..Len(terms) |-> Ident(terms[Len(terms) + 1 - i])], sp) \o <<59, NL>>
+    [] style = 6 -> \* explicit codes; every terminal declared again WITHOUT a code, in reverse order: the code stays the declared one
+                    KW_TERM \o sp \o Join([i \in 1..Len(terms) |-> Ident(terms[i]) \o <<61>> \o Digits(96 + terms[i])], sp) \o <<59, NL>>
+                    \o KW_TERM \o sp \o Join([i \in 1..Len(terms) |-> Ident(terms[Len(terms) + 1 - i])], sp) \o <<59, NL>>
+    [] style = 7 -> \* the other way round: first without codes, then again with the explicit codes
+                    KW_TERM \o sp \o Join([i \in 1..Len(terms) |-> Ident(terms[i])], sp) \o <<59, NL>>
+                    \o KW_TERM \o sp \o Join([i \in 1..Len(terms) |-> Ident(terms[Len(terms) + 1 - i]) \o <<61>> \o Digits(96 + terms[Len(terms) + 1 - i])], sp) \o <<59, NL>>
     [] OTHER -> KW_TERM \o sp \o Join([i \in 1..Len(terms) |-> Ident(terms[i]) \o <<61>> \o Digits(96 + terms[i])], sp) \o <<59, NL>>
 
 (* the text of a definition in a style; style 4 puts the declarations after the rules *)
